@@ -607,7 +607,7 @@ package app
 //@   requires no-live-instance: !(config.ReplicaName in p.runningProcesses) || p.runningProcesses[config.ReplicaName].done
 //@   ensures registered: config.ReplicaName in p.runningProcesses && fresh(p.runningProcesses[config.ReplicaName]) && p.runningProcesses[config.ReplicaName].procConf == config
 //@   ensures one-instance: spawned(fntag("(*app.ProjectRunner).runProcess$1")) == old(spawned(fntag("(*app.ProjectRunner).runProcess$1"))) + 1
-//@   ensures own-log-file-own-logger: isDefinedStr(config.LogLocation) ==> p.runningProcesses[config.ReplicaName].logger != p.logger
+//@   ensures own-log-file-own-logger: isDefinedStr(config.LogLocation) ==> typeis(p.runningProcesses[config.ReplicaName].logger, "*pclog.PCLog") && fresh(unbox(p.runningProcesses[config.ReplicaName].logger, "*pclog.PCLog"))
 //@   ensures project-logger-otherwise: !isDefinedStr(config.LogLocation) ==> p.runningProcesses[config.ReplicaName].logger == p.logger
 //@   ensures others-kept: forall k string :: k != config.ReplicaName ==> (k in p.runningProcesses <==> old(k in p.runningProcesses)) && p.runningProcesses[k] == old(p.runningProcesses[k])
 //@   ensures nolocks: noLocks() && runnerWF(p)
@@ -895,6 +895,7 @@ package app
 //@   ensures one-stopper-each: spawned(fntag("(*app.ProjectRunner).shutDownInOrder$1")) == old(spawned(fntag("(*app.ProjectRunner).shutDownInOrder$1"))) + len(shutdownOrder)
 //@   loop 1 invariant idx >= -1 && idx < len(shutdownOrder)
 //@   loop 1 invariant spawned(fntag("(*app.ProjectRunner).shutDownInOrder$1")) == old(spawned(fntag("(*app.ProjectRunner).shutDownInOrder$1"))) + idx + 1
+//@   loop 1 invariant list-wf: listWF(shutdownOrder)
 // ordered shutdown: the goroutine spawned per process requests its stop (after the waiters on its running dependents
 // have been joined) and, unless the stop failed, returns only after the process is done
 //@ func (p *ProjectRunner) shutDownInOrder$1
